@@ -223,20 +223,23 @@ ASSUME EndianMatters ==
 
 ---------------------------------------------------------------------------------
 (* one action per library call: evaluate the reference on the current case and observe the value *)
-Eval(op, args, ret) == /\ fresh /\ fresh' = FALSE /\ UNCHANGED <<key, seed>>
-                       /\ Obs(op, args, ret, [done |-> TRUE])
+Eval(act, op, args, ret) == /\ fresh /\ fresh' = FALSE /\ UNCHANGED <<key, seed>>
+                            /\ Obs(op, args, ret, [act |-> act])       \* post: the case is consumed; carries the action's name
 Args == [key |-> key, seed |-> seed]
 
-OpJenkins     == Eval("jenkins", Args, RefJenkins(key, seed))
-OpJenkinsLE   == Eval("jenkinsLE", Args, RefJenkinsLE(key, seed, TRUE))        \* law JenkinsSame: the unaligned path is the same value
+OpJenkins     == Eval("OpJenkins", "jenkins", Args, RefJenkins(key, seed))
+OpJenkinsLE   == Eval("OpJenkinsLE", "jenkinsLE", Args, RefJenkinsLE(key, seed, TRUE))        \* law JenkinsSame: the unaligned path is the same value
 OpJenkins32   == /\ Len(key) % 4 = 0
-                 /\ Eval("jenkins32", [key |-> WordsOf(key), seed |-> seed], RefJenkins32(WordsOf(key), seed))
-OpRotating    == Eval("rotating", Args, RefRotating(key, seed))
-OpOneAtATime  == Eval("one_at_a_time", Args, RefOneAtATime(key, seed))
-OpFnv         == Eval("fnv", Args, RefFnv(key, seed))
+                 /\ Eval("OpJenkins32", "jenkins32", [key |-> WordsOf(key), seed |-> seed], RefJenkins32(WordsOf(key), seed))
+OpRotating    == Eval("OpRotating", "rotating", Args, RefRotating(key, seed))
+\* the article's own start value hash=len is reachable through the seed argument (len > 0): the published function itself
+OpRotatingPublished == /\ seed = ZERO /\ Len(key) > 0
+                       /\ Eval("OpRotatingPublished", "rotating", [key |-> key, seed |-> U(Len(key))], Rotating(key, U(Len(key))))
+OpOneAtATime  == Eval("OpOneAtATime", "one_at_a_time", Args, RefOneAtATime(key, seed))
+OpFnv         == Eval("OpFnv", "fnv", Args, RefFnv(key, seed))
 
 Init == key \in Keys /\ seed \in Seeds /\ fresh = TRUE
-Next == OpJenkins \/ OpJenkinsLE \/ OpJenkins32 \/ OpRotating \/ OpOneAtATime \/ OpFnv
+Next == OpJenkins \/ OpJenkinsLE \/ OpJenkins32 \/ OpRotating \/ OpRotatingPublished \/ OpOneAtATime \/ OpFnv
 Spec == Init /\ [][Next]_vars
 
 ---------------------------------------------------------------------------------
